@@ -12,33 +12,51 @@ def identChar (c : Char) : Bool := c.isAlphanum || c == '_' || c == '-'
 
 def keyIsPlain (k : String) : Bool := k.toList.all identChar
 
-def joinWith (sep : String) : List String → String
-  | [] => ""
-  | [x] => x
-  | x :: xs => x ++ sep ++ joinWith sep xs
+def kwNull : List Char := ['N', 'u', 'l', 'l']
+def kwBoolean : List Char := ['B', 'o', 'o', 'l', 'e', 'a', 'n']
+def kwNumber : List Char := ['N', 'u', 'm', 'b', 'e', 'r']
+def kwString : List Char := ['S', 't', 'r', 'i', 'n', 'g']
+def kwOption : List Char := ['O', 'p', 't', 'i', 'o', 'n', '<']
+def kwArray : List Char := ['A', 'r', 'r', 'a', 'y', '<']
+def kwObject : List Char := ['O', 'b', 'j', 'e', 'c', 't', '{']
+def kwOneOf : List Char := ['O', 'n', 'e', 'O', 'f', '[']
+def kwTuple : List Char := ['T', 'u', 'p', 'l', 'e', '(']
+def sepComma : List Char := [',', ' ']
+def sepBar : List Char := [' ', '|', ' ']
+def sepColon : List Char := [':', ' ']
 
-def wrapOpt (o : Bool) (s : String) : String := if o then "Option<" ++ s ++ ">" else s
+/-- `Option<…>` around the non-optional rendering -/
+def wrapOptC (o : Bool) (cs : List Char) : List Char := if o then kwOption ++ cs ++ ['>'] else cs
+
+/-- a member name as `display_object_content` prints it -/
+def keyChars (k : String) : List Char :=
+  if keyIsPlain k then k.toList else ['"'] ++ k.toList ++ ['"']
 
 mutual
-/-- `Display::fmt` -/
-def display : Shape → String
-  | .null => "Null"
-  | .bool o => wrapOpt o "Boolean"
-  | .number o => wrapOpt o "Number"
-  | .string o => wrapOpt o "String"
-  | .array t o => wrapOpt o ("Array<" ++ display t ++ ">")
-  | .object c o => wrapOpt o ("Object{" ++ joinWith ", " (displayMembers c) ++ "}")
-  | .oneOf vs o => wrapOpt o ("OneOf[" ++ joinWith " | " (displayList vs) ++ "]")
-  | .tuple es o => wrapOpt o ("Tuple(" ++ joinWith ", " (displayList es) ++ ")")
-def displayList : List Shape → List String
+/-- `Display::fmt`, as the list of characters written -/
+def displayChars : Shape → List Char
+  | .null => kwNull
+  | .bool o => wrapOptC o kwBoolean
+  | .number o => wrapOptC o kwNumber
+  | .string o => wrapOptC o kwString
+  | .array t o => wrapOptC o (kwArray ++ displayChars t ++ ['>'])
+  | .object c o => wrapOptC o (kwObject ++ membersChars c ++ ['}'])
+  | .oneOf vs o => wrapOptC o (kwOneOf ++ listChars sepBar vs ++ [']'])
+  | .tuple es o => wrapOptC o (kwTuple ++ listChars sepComma es ++ [')'])
+/-- `.map(to_string).collect::<Vec<_>>().join(sep)` -/
+def listChars (sep : List Char) : List Shape → List Char
   | [] => []
-  | s :: l => display s :: displayList l
-/-- `display_object_content` items -/
-def displayMembers : Members → List String
+  | [s] => displayChars s
+  | s :: t :: l => displayChars s ++ sep ++ listChars sep (t :: l)
+/-- `display_object_content` -/
+def membersChars : Members → List Char
   | [] => []
-  | (k, v) :: l =>
-    (if keyIsPlain k then k ++ ": " ++ display v else "\"" ++ k ++ "\": " ++ display v) :: displayMembers l
+  | [(k, v)] => keyChars k ++ sepColon ++ displayChars v
+  | (k, v) :: kv :: l => keyChars k ++ sepColon ++ displayChars v ++ sepComma ++ membersChars (kv :: l)
 end
+
+/-- `to_string()` -/
+def display (s : Shape) : String := String.ofList (displayChars s)
 
 /-! ### wire format -/
 
